@@ -186,7 +186,14 @@ def validate(parts, specs, timeout=1800):
             for k, v in (o.get("seen") or {}).items():
                 r["seen"][k] = r["seen"].get(k, 0) + v
             if o.get("matched"):
-                r["matched"] = [a + b for a, b in zip(r["matched"], o["matched"])]
+                m = o["matched"]
+                if isinstance(m, dict):
+                    if not isinstance(r["matched"], dict):
+                        r["matched"] = {}
+                    for k, v in m.items():
+                        r["matched"][k] = r["matched"].get(k, 0) + v
+                else:
+                    r["matched"] = [a + b for a, b in zip(r["matched"], m)]
     return res
 
 
